@@ -104,6 +104,7 @@ type Lemma struct {
 }
 
 type Axiom struct {
+	Only     string // "@only <substring>": the axiom is added only when the function under check has this in its name
 	Triggers []ast.Expr
 	PkgPath  string
 	Name     string
@@ -476,6 +477,11 @@ func (cs *ContractSet) ParseFile(path, pkgPath string) error {
 				tail := strings.TrimSpace(rest[j+1:])
 				tail = strings.TrimPrefix(tail, ":")
 				var trig []ast.Expr
+				only := ""
+				if k := strings.Index(tail, "@only"); k >= 0 {
+					only = strings.TrimSpace(tail[k+len("@only"):])
+					tail = tail[:k]
+				}
 				if k := strings.Index(tail, "@trigger"); k >= 0 {
 					for _, ts := range splitTop(tail[k+len("@trigger"):]) {
 						if te, err := parseSpecExpr(strings.TrimSpace(ts)); err == nil {
@@ -488,7 +494,7 @@ func (cs *ContractSet) ParseFile(path, pkgPath string) error {
 				}
 				cl := mkClause(item{it.n, "", strings.TrimSpace(tail)}, nil)
 				if cl != nil {
-					cs.Axioms = append(cs.Axioms, &Axiom{PkgPath: pkgPath, Name: name, Params: params, Body: cl, Triggers: trig})
+					cs.Axioms = append(cs.Axioms, &Axiom{PkgPath: pkgPath, Name: name, Params: params, Body: cl, Triggers: trig, Only: only})
 				}
 			}
 		case "constglobal":
